@@ -307,13 +307,17 @@ def run(ctx, res):
                 rows += img.rows
         if B.name == "NackBuilder":
             rows += nack_rows(res, F, D, S)
+            from .c05 import nack_encoder
+            nack_encoder(F, D, res)     # a new word only when the distance exceeds 16: the greedy (= minimal) word list
         res.programs += 1
         per[B.name] = rows
         total_rows += rows
     res.floor("layout rows compared", total_rows, 250)
     res.analysed = {"rows_per_builder": per}
     res.trusted.append("the RFC layout transcription in rtcpverif/spec.py and rules/c07.py")
-    res.assumptions.append("NACK: the word list uses the minimum number of words — not decided (optimality of the greedy flush is a whole-sequence property)")
+    res.assumptions.append("NACK: minimum number of words — decided as the step relation of the word generator (a requested number at distance "
+                           "1..=16 from the current PID sets its bit, a new word is started only beyond 16, nothing is dropped); that this greedy "
+                           "cover is minimal is the usual exchange argument for interval covering, on paper")
 
 
 def nack_rows(res, F, D, S):
